@@ -5,6 +5,9 @@ HERE = os.path.dirname(os.path.dirname(os.path.abspath(__file__)))
 ALL = ["C%02d" % i for i in range(1, 21)]
 
 CHECKS = {
+ "C12": dict(cat="exploration", tech="sys.monitoring step-budget monitor (function entries + loop back-edges in parser.py/interpreter.py) on the real prog(), structural re-parse comparison, budgeted evaluation of re-parsed programs with a nondeterminism control",
+   text="All strings of <=2 tokens (thorough: all 3-token strings) over a 60-token alphabet, token-level edits of the repository's .kg corpus lines and generated long / deeply nested / truncated strings are parsed under a deterministic work budget B(n)=100(n+4)^2; each is parsed twice and compared structurally, the variable snapshot is compared across the parse, and the re-parsed program's evaluation is compared with the first parse's. Bounded statement: no enumerated input exceeds the budget; true termination for all strings is not decided.",
+   note="work = monitored events, not wall-clock; evaluation comparison skips I/O programs and programs whose own repeated evaluation is nondeterministic.", ref="DESIGN.md §4 C12"),
  "C10": dict(cat="exploration", tech="model-based history monitor: every dictionary operation's Klong-level result compared with a Python-dict model driven by the same sequence; alias visibility checked after each update",
    text="Generated operation sequences (literal, add/overwrite from both sides, find, remove, size, each, alias, literal re-evaluated inside a function) over keys of every hashable kind and values of every kind are executed by the real interpreter and compared step by step with a dictionary model; after every update all aliases are read back. Held on the sequences observed.",
    note="keys avoid Python-level collisions the reference is silent about (1 vs 1.0, 0cx vs \"x\"); d@k is observed but not judged.", ref="DESIGN.md §4 C10"),
